@@ -234,6 +234,45 @@ pub fn evaluate_guarded(port: u16, expr: &str, timeout: Duration) -> Result<Rang
     rx.recv_timeout(timeout).unwrap_or_else(|_| Err("TIMEOUT".into()))
 }
 
+/// Evaluate in a child process that is killed after `timeout` (used where a runaway evaluation
+/// would otherwise keep eating memory: complement sets).
+pub fn evaluate_in_subprocess(port: u16, expr: &str, timeout: Duration) -> Result<Ranges, String> {
+    use std::process::{Command, Stdio};
+    let exe = std::env::current_exe().map_err(|e| e.to_string())?;
+    let mut child = Command::new(exe).args(["eval-once", &port.to_string(), expr]).stdout(Stdio::piped()).stderr(Stdio::null()).spawn().map_err(|e| e.to_string())?;
+    let start = Instant::now();
+    loop {
+        match child.try_wait() {
+            Ok(Some(_)) => break,
+            Ok(None) if start.elapsed() > timeout => {
+                _ = child.kill();
+                _ = child.wait();
+                return Err("TIMEOUT".into());
+            }
+            Ok(None) => std::thread::sleep(Duration::from_millis(20)),
+            Err(e) => return Err(e.to_string()),
+        }
+    }
+    let out = child.wait_with_output().map_err(|e| e.to_string())?;
+    let text = String::from_utf8_lossy(&out.stdout);
+    let v: Value = serde_json::from_str(text.trim()).map_err(|e| format!("child output: {e}: {text}"))?;
+    if let Some(err) = v["err"].as_str() {
+        return Err(err.to_string());
+    }
+    Ok(v["ok"].as_array().cloned().unwrap_or_default().iter().filter_map(|e| Some((Pfx::parse(e[0].as_str()?)?, e[1].as_u64()? as u8, e[2].as_u64()? as u8))).collect())
+}
+
+pub fn eval_once(port: u16, expr: &str) {
+    let r = match RpslEvaluator::new("127.0.0.1", port) {
+        Ok(mut ev) => evaluate_with(&mut ev, expr),
+        Err(e) => Err(format!("CONNECT: {e:#}")),
+    };
+    match r {
+        Ok(r) => println!("{}", json!({"ok": r.iter().map(|(p, lo, hi)| json!([p.render(), lo, hi])).collect::<Vec<_>>()})),
+        Err(e) => println!("{}", json!({"err": e})),
+    }
+}
+
 pub fn members_of(r: &Ranges, uni: &[Pfx]) -> BTreeSet<Pfx> {
     uni.iter().copied().filter(|q| r.iter().any(|e| elem_matches(e, *q))).collect()
 }
@@ -507,7 +546,7 @@ pub fn run_c11(report: &mut Report, budget: Duration) {
                 if has_not && variant != 0 {
                     continue; // complement evaluation is exercised on one database only (see known finding)
                 }
-                let got = evaluate_guarded(irrd.port, &text, Duration::from_secs(if has_not { 6 } else { 20 }));
+                let got = if has_not { evaluate_in_subprocess(irrd.port, &text, Duration::from_secs(3)) } else { evaluate_guarded(irrd.port, &text, Duration::from_secs(20)) };
                 evals += 1;
                 if !want.is_empty() && want.len() < uni.len() {
                     nontrivial += 1;
